@@ -811,6 +811,8 @@ def run_hammer_stream(prop, stream, tier, seed, workdir, scale=1):
             if execs > 0:
                 verdicts.append({"kind": "MON", "id": "C03", "episode": 0, "step": 0, "raw": rp,
                                  "text": f"MON C03 :: {execs} body executions of {f[2]} among {calls} parallel calls for arguments whose result was already stored (free-running threads)"})
+                verdicts.append({"kind": "MON", "id": "C14", "episode": 0, "step": 0, "raw": rp,
+                                 "text": f"MON C14 :: a result of {f[2]} stored by one thread was not served to another: {execs} body executions among {calls} parallel calls (global / async scope shares one cache)"})
             if wrong > 0:
                 verdicts.append({"kind": "MON", "id": "C18", "episode": 0, "step": 0, "raw": rp,
                                  "text": f"MON C18 :: {wrong} of {calls} parallel calls of {f[2]} returned a value different from the stored result of the function"})
